@@ -33,5 +33,6 @@ def apply(value, data=None, serializer=None, deserializer=None):
 
 def apply_serialized(value: str, data: str = None, deserializer=None):
     """Run JSONLogic on some already serialized value and optional data."""
+    deserializer = deserializer if deserializer is not None else _json.loads
     res = _apply(value, data if data is not None else "null")
     return deserializer(res)
